@@ -13,7 +13,7 @@
    The grouped paths (tcp / http / tcpmux groups) are modelled and compared with the code on every
    run (Corr/C10.v) but are outside these theorems: see design/C10.md. *)
 From FRP Require Import Model.SrvRes Model.ConnWrap Proofs.PortsProofs Proofs.SrvResBase Proofs.SrvResProofs Proofs.SrvResThms
-  Proofs.ConnWrapProofs.
+  Proofs.ConnWrapProofs Model.StackTypes Model.ConnWrapSites Proofs.ConnWrapSitesProofs gen.GenStacks.
 Open Scope Z_scope.
 
 (* "all histories" is literally a fold_left of the step function *)
@@ -188,6 +188,25 @@ Theorem C10_wrapper_callback_once : forall k, (k <> 0)%nat ->
   exists st, cw_close_n k (cw_heap s) (cw_top s) cw_init = Some st /\ cw_calls st = [1%nat].
 Proof. exact cw_callback_once. Qed.
 Print Assumptions C10_wrapper_callback_once.
+
+(* the wrapper stacks as the SOURCE has them today: translator unit t5 regenerates gen/GenStacks.v from the ten
+   tunnel sites (server proxy.go / http.go / udp.go / visitor.go, client proxy.go / udp.go / sudp.go and the three
+   visitors) on every run; for every site and every combination of encryption / compression / limiter the
+   first Close of the outermost value closes the transport exactly once, and either every further Close
+   changes nothing (any number of calls) or the stack is pure pass-through.  The proof is reflective
+   (cw_sites_ok_sound applied to today's table): a limiter closure that names the re-assigned variable
+   (CtSelf / CtReassigned), a layer that no longer wraps the top, or a construct the translator does not
+   recognise makes the check false and this theorem fail *)
+Theorem C10_every_source_site_closes_its_transport :
+  stack_sites <> [] /\
+  forall s, In s stack_sites -> forall e c l,
+  exists st1, cw_close (cw_fuel (cw_site_heap s e c l)) (cw_site_heap s e c l) (pred (length (cw_site_heap s e c l))) cw_init = Some st1 /\
+              cw_base_closes st1 = 1 /\
+              ((forall k, cw_close_n (S k) (cw_site_heap s e c l) (pred (length (cw_site_heap s e c l))) cw_init = Some st1) \/
+               (exists st2, cw_close (cw_fuel (cw_site_heap s e c l)) (cw_site_heap s e c l) (pred (length (cw_site_heap s e c l))) st1 = Some st2 /\
+                            cw_base_closes st2 = 2 /\ cw_flags st2 = [])).
+Proof. exact (cw_sites_ok_sound stack_sites (eq_refl true)). Qed.
+Print Assumptions C10_every_source_site_closes_its_transport.
 
 (* the shapes before the two repairs never reached the transport (what regress/revert_8f52e6b and
    revert_ff68771 restore) *)
